@@ -440,7 +440,6 @@ theorem enqueueTx_allok {s : Pool} {t : Tx} (hw : WeakAll s) (ha : AllOK s)
           · exact Or.inl h
           · exact Or.inr ⟨Or.inr h, fun e => by subst e; omega⟩
     · rw [upd_other _ _ hu]
-      have : ∀ (A : List Tx), (∀ x, x ∈ A ↔ x ∈ s.all ∨ False) ∨ True := fun _ => Or.inr trivial
       cases hg : getN (s.queue t.sender).items t.nonce with
       | none =>
         rw [TxL.add_old_none hg]
